@@ -58,7 +58,7 @@ pub fn parse_bytes(s: &str) -> Result<Vec<u8>, ParseSequenceError> {
                 }
                 Some((idx, c2)) => {
                     let byte: u8 = match c2 {
-                        'x' => {
+                        'x' | 'X' => {
                             let hex: String = [
                                 chars
                                     .next()
@@ -290,9 +290,9 @@ fn parse_quoted_string(
                             c2
                         }
                         '`' => c2,
-                        'x' | 'u' | 'U' => {
+                        'x' | 'X' | 'u' | 'U' => {
                             let length = match c2 {
-                                'x' => 2,
+                                'x' | 'X' => 2,
                                 'u' => 4,
                                 'U' => 8,
                                 _ => unreachable!(),
